@@ -8,8 +8,14 @@
      calling process; flock(EX|NB) succeeds iff holder ∈ {None, this ofd};
      a blocking flock is enabled iff it would succeed; flock(UN) / close of the
      holder frees the lock; [ECrash p] closes every ofd of p.  The n-th syscall
-     of a kind raises OSError when (kind, n) is in the fault script (a faulting
-     close still closes the descriptor, as on Linux).
+     of a kind raises when (kind, n, flavour) is in the fault script (a faulting
+     close still closes the descriptor, as on Linux); flavour false = OSError,
+     true = a BaseException that is not an Exception (KeyboardInterrupt: what a
+     signal handler raises inside a system call).  The library tells the two
+     apart only at os.open (an OSError is swallowed l.263-264, anything else
+     leaves acquire through its bare except l.181) and at flock (OSError: close,
+     go on polling l.267-268; anything else: close and re-raise l.269-272, fix
+     ad374ce); close / unlock treat them alike.
      File content / existence is not part of the state: ownership is decided by
      [holder] only (C13 no_soft_state).
 
@@ -27,16 +33,18 @@
                        depth, counter-1, fd:=None)
      PTLAcq   l.144    _thread_lock.acquire(blocking, timeout), then l.148-153
                        (counter+1, is_locked early return, start_time)
-     POpen    l.260    os.open            (on OSError: l.261-262, then l.164-180)
-     PFlock   l.264    fcntl.flock(EX[|NB]) (success: l.268, l.164-166, 186)
-     PCloseF  l.266    os.close after a failed flock, then the check l.164-180:
-                       non-blocking -> cleanup; 0<=timeout<now-start -> cleanup;
-                       else sleep.  A raising close -> l.181-184 (cleanup, re-raise)
+     POpen    l.262    os.open            (on OSError: l.263-264, then l.164-180;
+                       on an interrupt: l.181-184 cleanup, re-raise)
+     PFlock   l.266    fcntl.flock(EX[|NB]) (success: l.274, l.164-166, 186)
+     PCloseF  l.268/271 os.close after a failed / interrupted flock; then, failed:
+                       the check l.164-180 (non-blocking -> cleanup;
+                       0<=timeout<now-start -> cleanup; else sleep); interrupted
+                       (flag) or raising close -> l.181-184 (cleanup, re-raise)
      PSleep   l.180    time.sleep(poll_interval) in virtual time
      PCleanRel l.157   _thread_lock.release() of _cleanup_thread_lock (counter
                        already decremented l.156), then return False / raise
-     PUnlock  l.278    fcntl.flock(UN)
-     PCloseR  l.280    os.close, then l.236-241 (counter := 0 in `finally`)
+     PUnlock  l.284    fcntl.flock(UN)
+     PCloseR  l.286    os.close, then l.236-242 (counter := 0 in `finally`)
      PTLRel   l.244    _thread_lock.release(), max(1,depth) times; a
                        RuntimeError ends the loop (l.245)
    acquire_ctx / with-statement = the same acquire with a TimeoutError instead
@@ -81,7 +89,7 @@ Inductive pc :=
 | PTLAcq (a : aloc) (dl : option N)
 | POpen (a : aloc)
 | PFlock (a : aloc) (d : fdid)
-| PCloseF (a : aloc) (d : fdid)
+| PCloseF (a : aloc) (d : fdid) (intr : bool)  (* intr: flock was interrupted: re-raise after the close *)
 | PSleep (a : aloc) (wake : N)
 | PCleanRel (a : aloc) (oserr : bool)      (* oserr: re-raise the OSError afterwards, else return False *)
 | PUnlock (o : oid) (d : fdid) (k : nat)
@@ -102,7 +110,7 @@ Record state := mkst {
   fdown : fdid -> option pid;      (* kernel: open ofds and their process *)
   nextfd : fdid;
   now : N;
-  faults : list (skind * nat);
+  faults : list (skind * nat * bool);   (* (kind, index, interrupt flavour?) *)
   nsys : skind -> nat;             (* syscalls of each kind executed so far *)
   nfired : nat;                    (* ghost: injected faults that fired *)
   dead : pid -> bool;
@@ -131,7 +139,11 @@ Definition set_pc (s : state) (t : tid) (p : pc) : state :=
 (* -------- kernel ---------------------------------------------------------- *)
 
 Definition faulty (s : state) (k : skind) : bool :=
-  existsb (fun p => skind_eqb (fst p) k && Nat.eqb (snd p) (nsys s k)) (faults s).
+  existsb (fun p => skind_eqb (fst (fst p)) k && Nat.eqb (snd (fst p)) (nsys s k)) (faults s).
+
+(* the pending syscall of kind k is scripted to raise the interrupt flavour *)
+Definition intr (s : state) (k : skind) : bool :=
+  existsb (fun p => skind_eqb (fst (fst p)) k && Nat.eqb (snd (fst p)) (nsys s k) && snd p) (faults s).
 
 (* count one syscall of kind k; returns (it raises OSError?, state) *)
 Definition sys (s : state) (k : skind) : bool * state :=
@@ -339,20 +351,21 @@ Definition step (s : state) (t : tid) : state :=
       end
   | POpen a =>
       let '(f, s1) := sys s KOpen in
-      if f then after_attempt s1 t a
+      if f then (if intr s KOpen then enter_cleanup s1 t a true      (* l.181-184: nothing was opened *)
+                 else after_attempt s1 t a)
       else let '(d, s2) := k_open s1 p in set_pc s2 t (PFlock a d)
   | PFlock a d =>
       let '(f, s1) := sys s KLock in
-      if f then set_pc s1 t (PCloseF a d)
+      if f then set_pc s1 t (PCloseF a d (intr s KLock))
       else if holder_free_for s1 d
            then let s2 := set_holder s1 (Some d) in
                 let s3 := set_obj s2 (a_o a) (set_fd (objs s2 (a_o a)) (Some d)) in   (* l.268 *)
                 finish_acq s3 t a RTrue
-           else set_pc s1 t (PCloseF a d)
-  | PCloseF a d =>
+           else set_pc s1 t (PCloseF a d false)
+  | PCloseF a d i =>
       let '(f, s1) := sys s KClose in
       let s2 := k_close s1 d in
-      if f then enter_cleanup s2 t a true                              (* l.181-184 *)
+      if f || i then enter_cleanup s2 t a true                         (* l.181-184 *)
       else after_attempt s2 t a
   | PSleep a _ => set_pc s t (POpen a)
   | PCleanRel a oserr =>
@@ -401,7 +414,7 @@ Fixpoint nth_fun {A} (l : list A) (d : A) (n : nat) : A :=
   end.
 
 (* objects and threads given as lists (index = id); everything else idle/empty *)
-Definition init (os : list obj) (ts : list thread) (fl : list (skind * nat)) : state :=
+Definition init (os : list obj) (ts : list thread) (fl : list (skind * nat * bool)) : state :=
   mkst (nth_fun os (obj0 0 false TNeg)) (nth_fun ts (thr0 0 [])) None (fun _ => None) 0 0%N fl
        (fun _ => 0) 0 (fun _ => false) false 0.
 
@@ -409,7 +422,7 @@ Definition init (os : list obj) (ts : list thread) (fl : list (skind * nat)) : s
 
 Definition opcode (s : state) (t : tid) : nat :=
   match t_pc (thr s t) with
-  | PIdle => 1 | PTLAcq _ _ => 2 | POpen _ => 3 | PFlock _ _ => 4 | PCloseF _ _ => 5
+  | PIdle => 1 | PTLAcq _ _ => 2 | POpen _ => 3 | PFlock _ _ => 4 | PCloseF _ _ _ => 5
   | PSleep _ _ => 6 | PCleanRel _ _ => 7 | PUnlock _ _ _ => 8 | PCloseR _ _ _ => 5 | PTLRel _ _ => 7
   end.
 
